@@ -17,7 +17,10 @@ pub fn module(r: &mut Rng, allow_unstable: bool) -> (Vec<u8>, AInfo) {
     let mut m = we::Module::new();
     let mut customs_left = r.usize(4);
     let custom = |m: &mut we::Module, r: &mut Rng, info: &mut AInfo, left: &mut usize| { if *left > 0 && r.chance(1, 3) { *left -= 1; info.n_customs += 1;
-        let nm = match r.below(6) { 0 => "".to_string(), 1 => ".debu".to_string(), 2 => "nam".to_string(), 3 => "dup".to_string(), _ => name(r) };
+        let nm = match r.below(9) { 0 => "".to_string(), 1 => ".debu".to_string(), 2 => "nam".to_string(), 3 => "dup".to_string(),
+            // names that merely CONTAIN or resemble the names walrus treats specially (relocatable objects have `reloc..debug_info`)
+            4 => r.pick(&["reloc..debug_info", "x.debug_line", "name2", "names", "producers2", "my.producers", "linking", "target_features", "Name", "PRODUCERS", " name", "name "]).to_string(),
+            _ => name(r) };
         let len = r.usize(5); m.section(&we::CustomSection { name: nm.into(), data: (0..len).map(|_| r.below(256) as u8).collect::<Vec<u8>>().into() }); } };
     custom(&mut m, r, &mut info, &mut customs_left);
     // types (some duplicates on purpose: walrus de-duplicates)
